@@ -8,11 +8,11 @@ WT=/tmp/cs_$$
 git -C /repo worktree add -f $WT HEAD -q || exit 2
 cmd=$(python3 -c "import json,sys; print(json.load(open('$D/meta.json')).get('demo_cmd',''))" 2>/dev/null)
 build_demo() {  # $1 = output exe
-  if grep -q "mpi.h\|<mpi" $D/demo.cpp 2>/dev/null; then mpicxx -std=c++17 -O1 -fopenmp -I $WT -I/usr/include/eigen3 $D/demo.cpp -o $1 2>/tmp/cs_build.err
+  if grep -q "amgcl/mpi\|mpi.h" $D/demo.cpp 2>/dev/null; then mpicxx -std=c++17 -O1 -fopenmp -I $WT -I/usr/include/eigen3 $D/demo.cpp -o $1 2>/tmp/cs_build.err
   else g++ -std=c++17 -O1 -fopenmp -I $WT -I/usr/include/eigen3 $D/demo.cpp -o $1 2>/tmp/cs_build.err; fi
 }
 run_demo() {    # $1 = exe ; uses np from meta demo_cmd if it is an MPI demo
-  if grep -q "mpi.h\|<mpi" $D/demo.cpp 2>/dev/null; then
+  if grep -q "amgcl/mpi\|mpi.h" $D/demo.cpp 2>/dev/null; then
      np=$(echo "$cmd" | grep -o "\-np [0-9]*" | head -1 | awk '{print $2}'); np=${np:-3}
      OMP_NUM_THREADS=1 timeout 600 mpirun --allow-run-as-root --oversubscribe -np $np $1 > /tmp/cs_demo.out 2>&1
   else
